@@ -279,13 +279,32 @@ def run(c):
         n = sum(sum(p["len"] for p in st["pkts"]) // (st["mtu"] - 16) + len(st["pkts"]) for st in s["streams"])
         return 3 * n + 20
     traces = []
+    # The gateway's pool of 1024 frame buffers is process-wide and frames that are still buffered in a reassembly
+    # list (or fetched in advance by an IngressServer read loop, 64 at a time) when a scenario ends are never
+    # returned: one driver process must not run too many scenarios, or newFrameBufs blocks for ever.
+    def batches(chunk):
+        cur, held = [], 0
+        for s in chunk:
+            need = 70 if s["mode"] == "ingress" else (101 if cost(s) > 400 else 3)
+            if cur and (held + need > 600 or len(cur) >= 150):
+                yield cur
+                cur, held = [], 0
+            cur.append(s)
+            held += need
+        if cur:
+            yield cur
     for i, chunk in enumerate(_gw.deal(sorted(scns, key=cost, reverse=True), nchunks, cost)):
-        f = "%s/scn-%d.ndjson" % (c.scratch, i)
-        with open(f, "w") as fh:
-            for s in chunk:
-                fh.write(json.dumps(s) + "\n")
         t = "%s/trace-%d.ndjson" % (c.scratch, i)
-        c.run_driver(drv, ["-in", f, "-out", t], timeout=1800)
+        with open(t, "w") as tout:
+            for j, batch in enumerate(batches(chunk)):
+                f = "%s/scn-%d-%d.ndjson" % (c.scratch, i, j)
+                with open(f, "w") as fh:
+                    for s in batch:
+                        fh.write(json.dumps(s) + "\n")
+                tb = "%s/trace-%d-%d.ndjson" % (c.scratch, i, j)
+                c.run_driver(drv, ["-in", f, "-out", tb], timeout=600)
+                with open(tb) as tin:
+                    tout.write(tin.read())
         traces.append(t)
     res = _gw.validate_all(c, "SigFramingTrace", "SigFramingTrace.cfg", traces, heap="4g")
     nd = sum(r.out.count('"VERIF-DRIFT"') for r in res)
